@@ -23,6 +23,11 @@ IS_FINAL = "raw::node::Node::<'f>::is_final"
 FINAL_OUTPUT = "raw::node::Node::<'f>::final_output"
 
 
+def is_node_call(t):
+    c = (t.get('callee') or {})
+    return (c.get('resolved') or c.get('path') or '').endswith("FstRef::<'f>::node")
+
+
 def reads_transition_out(f):
     return any(True for _ in f.field_accesses('raw::Transition', 'out'))
 
@@ -88,15 +93,18 @@ def r16_1(ctx):
             stores = [(loc, st, k, i) for (k, i, loc, st) in p.stores()]
             cs = path_calls(p)
             pushes = [c for c in cs if isinstance(c[2], str) and c[2].endswith('::push') and arg_loc(g, c[4], 0) is not None and arg_loc(g, c[4], 0)[0] == 3]
-            n_step += 1
-            ok_push = len(pushes) == 1 and any(x[0] == 'field' and x[2] == 'inp' for x in walk(pushes[0][3][1]))
-            ctx.check(R, ok_push, 'step-appends-byte', 'a descent step does not append exactly the input byte of the transition it follows', fn=g)
             # value update
             upd = None
             for k, bid in enumerate(p.blocks):
                 for i, st in enumerate(g.blocks[bid]['stmts']):
                     if st['k'] == 'assign' and not st['place']['proj'] and st['place']['local'] == 2:
                         upd = p.sym.rvalue_at(st['rv'], (k, i))
+            moved = any(is_node_call(x) for kk, bid in enumerate(p.blocks) for x in [g.blocks[bid]['term']] if x and x['k'] == 'call')
+            if not pushes and upd is None and not moved:
+                continue      # an iteration of an inner search loop (looking for the transition to follow), not a descent step
+            n_step += 1
+            ok_push = len(pushes) == 1 and any(x[0] == 'field' and x[2] == 'inp' for x in walk(pushes[0][3][1]))
+            ctx.check(R, ok_push, 'step-appends-byte', 'a descent step does not append exactly the input byte of the transition it follows', fn=g)
             ok_upd = upd is not None and upd[0] == 'bin' and upd[1] == 'Sub' and any(x[0] == 'field' and x[2] == 'out' for x in walk(upd[3]))
             ctx.check(R, ok_upd, 'step-consumes-output', 'a descent step does not subtract the output of the transition it follows from the remaining value: %s' % fmt(upd)[:100], fn=g)
     if n_true == 0:
